@@ -9,7 +9,8 @@ from .. import budget, judge as J, par, sweep
 from ..repo import tad, reverse_dfs, NOSOL
 
 PROP = "C10"
-OPS = ("same-object/prune", "same-object/no-prune", "fresh-object/prune", "fresh-object/no-prune")
+OPS = ("same-object/prune", "same-object/no-prune", "fresh-object/prune", "fresh-object/no-prune",
+       "component/validate", "component/count")      # the last two: check_game + init_states, count_transitions on the persistent object
 CPU = 0.3
 
 
@@ -60,6 +61,13 @@ class World:
 
     def apply(self, op):
         where, mode = op.split("/")
+        if where == "component":
+            if mode == "validate":
+                def fn():
+                    self.sg.check_game()
+                    return len(self.sg.init_states())
+                return ("aux",) + outcome_of(fn)[1:]
+            return ("aux",) + outcome_of(self.sg.count_transitions)[1:]
         prune = mode == "prune"
         if where == "same-object":
             self.sg.prune_states = prune
@@ -120,7 +128,13 @@ def explore(pristine, depth):
                 return findings, len(seen), transitions, False
             if res[0] == "timeout":
                 continue
-            if res != ref[prune]:
+            if res[0] == "aux":
+                want = len(pristine["players"]) if op.endswith("validate") else sum(len(r) for r in pristine["transition_list"])
+                if res[1] != want:
+                    findings.append(("C10/component-result-differs", repr(res[1]), repr(want),
+                                     "after the history %s, %s returned %r instead of %r" % (list(hist), op, res[1], want), list(hist) + [op]))
+                    return findings, len(seen), transitions, False
+            elif res != ref[prune]:
                 findings.append(("C10/result-differs", repr(res)[:600], repr(ref[prune])[:600],
                                  "the last solve of the history %s returned a result different from solving the same description "
                                  "once in a fresh process" % (list(hist) + [op],), list(hist) + [op]))
@@ -189,8 +203,8 @@ def work(shard):
     return out
 
 
-RULE = ("for every stopping game of the listed universes: breadth-first exploration of all histories over the 4 operations {same object, fresh "
-        "object} x {pruned, unpruned} on ONE caller-owned description, states = canonical deep snapshot of (description, persistent object's "
+RULE = ("for every stopping game of the listed universes: breadth-first exploration of all histories over the 6 operations ({same object, fresh "
+        "object} x {pruned, unpruned} solves, plus check_game+init_states and count_transitions on the persistent object) on ONE caller-owned description, states = canonical deep snapshot of (description, persistent object's "
         "attributes, non-callable module globals of tad and reverse_dfs), de-duplicated; depth bound per tier; after every operation the "
         "description must equal the pristine copy and the result must equal (==) the result of that mode computed once in a forked fresh "
         "process; 'closed' = no unexplored state remained at the depth bound, so the claim extends to histories of any length; "
@@ -253,6 +267,9 @@ def replay(case):
     if canon(w.desc) != canon(game):
         return "description mutated after %s: %r" % (hist, w.desc)
     prune = hist[-1].endswith("/prune")
+    if res[0] == "aux":
+        want = len(game["players"]) if hist[-1].endswith("validate") else sum(len(r) for r in game["transition_list"])
+        return None if res[1] == want else "component call returned %r instead of %r" % (res[1], want)
     if res[0] != "timeout" and res != ref[prune]:
         return "result differs after %s" % (hist,)
     return None
